@@ -95,6 +95,19 @@ CHECKS["C09"] = dict(
     technique="Coq proof (nsatz/ring over Q, list lemmas) + metamorphic testing of the implementation",
     design="4/C09")
 
+CHECKS["C17"] = dict(
+    text="Theorems about Gallina models of the six iteration loops (generic Newton with and without line search, thermal "
+         "step, flow path, FEM Newton, Picard) over an arbitrary stream of observed residual norms with IEEE NaN/inf "
+         "comparison semantics: a return implies the tolerance test on the value attached to the returned iterate and that "
+         "value is not NaN; budget 0 raises; a criterion never met raises; for every budget and tolerance.  Facts about the "
+         "source regenerated on every run (no documented solver parameter is ignored, solver attributes are fed by parameters "
+         "or parameter-set keys, the spring network passes its own tolerances to newton, newton's defaults equal the "
+         "documented ones) are proved by computation on the generated tables.  Tied by scripted-residual runs of the real loops.",
+    note="Trusted: Coq kernel; the ast translator; scripted la.norm proxies and stubbed RJ/FEM state.  The adaptive tube step "
+         "is covered through C10's model.  Convergence itself (that a solve eventually meets its criterion) is not claimed.",
+    technique="Coq proof (induction over the iteration budget) + generated source facts by vm_compute + scripted-run correspondence",
+    design="4/C17")
+
 NOT_YET = {}
 
 def main():
